@@ -98,6 +98,12 @@ func ghostSort(ty string) (string, error) {
 		return ArraySort(SString, SBool), nil
 	case "map[string]string":
 		return ArraySort(SString, SString), nil
+	case "map[int]string":
+		return ArraySort(SInt, SString), nil
+	}
+	if strings.HasPrefix(strings.TrimSpace(ty), "[]") {
+		// a ghost copy of a slice header: indexing reads the current heap
+		return SSlice, nil
 	}
 	return "", fmt.Errorf("unsupported ghost type %q", ty)
 }
@@ -114,7 +120,14 @@ func (se *specEnv) ghost(name string) (specVal, bool, error) {
 	if err != nil {
 		return specVal{}, true, err
 	}
-	return specVal{t: se.e.lookup(se.cur, "G$"+name, srt)}, true, nil
+	sv := specVal{t: se.e.lookup(se.cur, "G$"+name, srt)}
+	if srt == SSlice {
+		sv.typ = se.e.prog.resolveType(g.PkgPath, strings.TrimSpace(g.Type))
+		if sv.typ == nil {
+			return specVal{}, true, fmt.Errorf("ghost %s: cannot resolve type %s", name, g.Type)
+		}
+	}
+	return sv, true, nil
 }
 
 func (se *specEnv) eval(x SExpr) (specVal, error) {
@@ -410,13 +423,31 @@ func (se *specEnv) objVal(obj types.Object) (specVal, error) {
 // localByName finds a source-level variable: a phi of the current loop header, any phi, or an Alloc.
 func (se *specEnv) localByName(name string) (specVal, bool) {
 	e := se.e
+	if se.loop != nil && name == "rangeexpr" {
+		// the slice a range loop iterates over: the operand of the len() the loop header compares the index with
+		for _, ins := range se.loop.header.Instrs {
+			b, ok := ins.(*ssa.BinOp)
+			if !ok {
+				continue
+			}
+			for _, op := range []ssa.Value{b.X, b.Y} {
+				if c, ok := op.(*ssa.Call); ok {
+					if bi, ok := c.Call.Value.(*ssa.Builtin); ok && bi.Name() == "len" && len(c.Call.Args) == 1 {
+						if t, ok := e.vals[c.Call.Args[0]]; ok {
+							return specVal{t: t, typ: c.Call.Args[0].Type()}, true
+						}
+					}
+				}
+			}
+		}
+	}
 	if se.loop != nil {
 		for _, ins := range se.loop.header.Instrs {
 			phi, ok := ins.(*ssa.Phi)
 			if !ok {
 				break
 			}
-			if phi.Comment == name {
+			if phi.Comment == name || (name == "rangeiter" && phi.Comment == "rangeint.iter") {
 				if t, ok := e.vals[phi]; ok {
 					if allAllocEdges(phi) {
 						// the phi is the address of the variable's current cell (captured per-iteration variable)
@@ -744,6 +775,20 @@ func (se *specEnv) evalCall(n *SCall) (specVal, error) {
 		default:
 			return specVal{t: T(fmt.Sprintf("(str.in_re %s (re.+ (re.range \"0\" \"9\")))", as[0].t.S), SBool)}, nil
 		}
+	case "nthKey":
+		// nthKey(m, i): the i-th key of map m in increasing order (the unique sorted enumeration of its key set)
+		as, err := args()
+		if err != nil {
+			return specVal{}, err
+		}
+		mt, ok := as[0].typ.Underlying().(*types.Map)
+		if !ok {
+			return specVal{}, fmt.Errorf("nthKey: first argument is not a map")
+		}
+		ks := e.tr.sortOf(mt.Key())
+		e.sc.DeclareFun("nth_key_"+ks, []string{ArraySort(ks, SBool), SInt}, ks)
+		d := e.lookup(se.cur, e.mapDomHeap(mt), e.mapDomSort(mt))
+		return specVal{t: App(ks, "nth_key_"+ks, Select(d, as[0].t), as[1].t), typ: mt.Key()}, nil
 	case "setenvOK":
 		as, err := args()
 		if err != nil {
@@ -1036,6 +1081,28 @@ func (se *specEnv) debugName(name string) (specVal, bool) {
 	}
 	var pick *ssa.DebugRef
 	score := -1
+	if se.loop == nil && e.curBlock != nil {
+		// outside loop-invariant contexts: the reference executed most recently on the way to the current point
+		best := 0
+		for _, d := range refs {
+			seq, seen := e.debugSeen[d]
+			if !seen || d.IsAddr {
+				continue
+			}
+			if _, defined := e.vals[d.X]; !defined {
+				continue
+			}
+			if d.Block() != e.curBlock && !d.Block().Dominates(e.curBlock) {
+				continue
+			}
+			if seq > best {
+				best, pick = seq, d
+			}
+		}
+		if pick != nil {
+			return specVal{t: e.vals[pick.X], typ: pick.X.Type()}, true
+		}
+	}
 	for _, d := range refs {
 		sc := 0
 		if _, defined := e.vals[d.X]; !defined {
